@@ -128,6 +128,13 @@ def generate(tier, rng):
     out.append(reader_line("IOR", 100000, frb, None, "sched", [3, 1, 65535, 2, "I", 100000]))
     out.append(reader_line("IOR", 100000, frb, None, "sched", [100000]))
     out.append(reader_line("IOR", 100000, frb, 4 + 65536 + 10, "sched", [70000, "I", 100000]))
+    huge = bytes((i * 11 + 5) & 0xff for i in range(200000))
+    frh = [good(huge), good(b"\x07")]
+    out.append(reader_line("IOR", 300000, frh, None, "sched", [300000]))
+    out.append(reader_line("IOR", 300000, frh, None, "sched", [4, 131072, "I", 1, "I", 300000]))
+    # values larger than 64 KiB through the blocking writer
+    out.append("IOW max=%d vals=%s,%s,%s sink=-" % (300000, item(b"\x01"), item(bigp), item(b"\x02\x03")))
+    out.append("IOW max=%d vals=%s,%s sink=-" % (300000, item(huge), item(b"\x02")))
     return out
 
 def _kv(line, key):
